@@ -261,10 +261,15 @@ def run_case(ctx, kind, rng, idx):
                 np.resize(Y, (len(Y), d)).astype(X.dtype))
         kfit = int(rng.integers(1, min(n, 8) + 1))
         try:
-            if rng.random() < 0.5:
+            w = int(rng.integers(0, 3))
+            if w == 0:
                 est = kcenters.KCenters(m, n_clusters=kfit).fit(X)
-            else:
+            elif w == 1:
                 est = kmedoids.KMedoids(m, n_clusters=kfit, n_iters=2).fit(X)
+            else:
+                from enspara.cluster import hybrid as _hy
+                est = _hy.KHybrid(m, n_clusters=kfit, kmedoids_updates=2,
+                                  mpi_mode=False).fit(X)
             fz = Frozen(Y)
             pred = est.predict(Y)
             if fz.changed():
